@@ -73,7 +73,8 @@ theorem step_UNICODE : step cfg opUNICODE rest st = rdBytes rest fun b r =>
     | some s => .cont r (.str s :: st)
     | Option.none => .err .dataFormat := rfl
 theorem step_NEWLIST : step cfg opNEWLIST rest st =
-    rdI32 rest fun n r => .cont r (.list (List.replicate n.toNat .none) :: st) := rfl
+    rdI32 rest fun n r =>
+      if memExceeded cfg n.toNat then .err .memory else .cont r (.list (List.replicate n.toNat .none) :: st) := rfl
 theorem step_NEWDICT : step cfg opNEWDICT rest st = .cont rest (.dict [] :: st) := rfl
 theorem step_SETITEM : step cfg opSETITEM rest st = setItem rest st := rfl
 theorem step_BUILDTUPLE : step cfg opBUILDTUPLE rest st =
